@@ -188,8 +188,15 @@ fn bdd_query<'a>(b: &'a AllBuilder<'a>, p: BddPtr<'a>, q: &Q, fx: &Fix) -> Resul
 
 /// explore all query sequences of length <= depth over the BDD pool of (f, g)
 fn explore_bdd(f: TT, g: TT, n: usize, order: &[usize], depth: usize, kind: u8, rep: &mut Report) {
+    explore_bdd_sel(f, g, n, order, depth, kind, rep, false)
+}
+
+/// `ops_only`: the alphabet is restricted to the queries that go through the builder (conditioning,
+/// quantification, smoothing of every width, builder statistics) - the calls that can leave state in
+/// the *builder* rather than in the nodes; the smaller alphabet makes every triple affordable
+fn explore_bdd_sel(f: TT, g: TT, n: usize, order: &[usize], depth: usize, kind: u8, rep: &mut Report, ops_only: bool) {
     let fx = fixtures(n);
-    let qs = bdd_queries(n);
+    let qs: Vec<(String, Q)> = bdd_queries(n).into_iter().filter(|(_, q)| !ops_only || matches!(q, Q::Cond(_, _) | Q::Exists(_) | Q::CondModel(_) | Q::Smooth(_) | Q::Fixed(11) | Q::BuilderStats)).collect();
     let nq = qs.len();
     // reference answers: every (query, member) on a fresh copy in a fresh builder
     let npool = match kind {
@@ -214,7 +221,7 @@ fn explore_bdd(f: TT, g: TT, n: usize, order: &[usize], depth: usize, kind: u8, 
         reference.push(row);
     }
     let case = |hist: &[(usize, usize)]| -> Value {
-        json!({"kind": "bdd_queries", "pool_kind": kind, "f": format!("{:#x}", f), "g": format!("{:#x}", g), "n": n, "order": order, "sequence": hist.iter().map(|(q, m)| json!([qs[*q].0, m])).collect::<Vec<_>>()})
+        json!({"kind": "bdd_queries", "ops_only": ops_only, "pool_kind": kind, "f": format!("{:#x}", f), "g": format!("{:#x}", g), "n": n, "order": order, "sequence": hist.iter().map(|(q, m)| json!([qs[*q].0, m])).collect::<Vec<_>>()})
     };
     // all sequences; each sequence runs in its own shared builder
     let mut seqs: Vec<Vec<(usize, usize)>> = vec![vec![]];
@@ -578,6 +585,26 @@ pub fn run(ctx: &Ctx) -> Report {
             items.push((4, 3, start, 4, o.clone(), VT::Leaf(0)));
         }
     }
+    // every function of 3 variables: every TRIPLE of builder-level operations (condition on every
+    // literal, exists on every variable, three partial models, smoothing of every width, builder
+    // statistics) in a fresh builder each - state that one kind of call leaves in the builder and a
+    // later call of another kind trips over needs three calls (set, disturb, read)
+    for (i, o) in permutations(3).into_iter().enumerate() {
+        if ctx.tier == Tier::Thorough || i % 3 == 1 {
+            for start in 0..8u64 {
+                items.push((8, 3, start, 8, o.clone(), VT::Leaf(0)));
+            }
+        }
+    }
+    if ctx.tier == Tier::Thorough {
+        for (i, o) in permutations(4).into_iter().enumerate() {
+            if i % 6 == 2 {
+                for start in 0..8u64 {
+                    items.push((8, 4, start * 97 + 11, 1024, o.clone(), VT::Leaf(0)));
+                }
+            }
+        }
+    }
     if ctx.tier == Tier::Thorough {
         for (i, o) in permutations(4).into_iter().enumerate() {
             for start in 0..4u64 {
@@ -619,6 +646,17 @@ pub fn run(ctx: &Ctx) -> Report {
                 let mut t = *f;
                 while t < total {
                     explore_bdd(t, 0, *n, o, 2, kind, &mut r);
+                    if r.n_violations > 4 {
+                        break;
+                    }
+                    t += *g;
+                }
+            }
+            8 => {
+                let total = 1u64 << (1u64 << *n);
+                let mut t = *f;
+                while t < total {
+                    explore_bdd_sel(t, 0, *n, o, 3, if *n == 3 { 1 } else { 2 }, &mut r, true);
                     if r.n_violations > 4 {
                         break;
                     }
@@ -693,7 +731,7 @@ pub fn replay(ctx: &Ctx, case: &Value) -> Report {
     let depth = case["sequence"].as_array().map(|a| a.len()).unwrap_or(2).max(1);
     let _ = ctx;
     match case["kind"].as_str() {
-        Some("bdd_queries") => explore_bdd(f, g, n, &arr(&case["order"]), depth, case["pool_kind"].as_u64().unwrap_or(0) as u8, &mut rep),
+        Some("bdd_queries") => explore_bdd_sel(f, g, n, &arr(&case["order"]), depth, case["pool_kind"].as_u64().unwrap_or(0) as u8, &mut rep, case["ops_only"].as_bool().unwrap_or(false)),
         Some("sdd_queries") => explore_sdd(f, g, n, &VT::parse(case["vtree"].as_str().unwrap_or("0")).unwrap_or(VT::Leaf(0)), depth, &mut rep),
         Some("topdown_long_history") => long_histories_td(f, n, &arr(&case["order"]), &mut rep),
         Some("topdown_queries") => explore_td(f, g, n, &arr(&case["order"]), depth, case["pool_kind"].as_u64().unwrap_or(0) as u8, &mut rep),
